@@ -41,6 +41,9 @@ def gen_path(rng, known=None):
     if known is None:
         known = rng.random() < 0.7
     p = rng.choice(PREFIXES if known else UNKNOWN_PREFIXES)
+    if rng.random() < 0.08:
+        # the prefix is followed directly by something else than '/' (as in @{lib}{,exec}/..., @{bin}{,/}, /etc.d/...)
+        return p + rng.choice(["{,exec}/foo", "-x/a", "{,/}", ".d/x", "2/a", "{,64}/b/"])
     return p + rng.choice(TAILS)
 
 
